@@ -16,15 +16,15 @@ NA = {
 
 CHECKS = {
  "C17": dict(level="exploration", design="§5 C17",
-   text="Seeded search over C-API call histories (5-200 calls over 62 exported functions from a handle table with live values, survivors of freed contexts, NULL and odd primitives), with contexts freed under live handles and pending orders, responses released right after submission, collections injected between and inside calls, re-entrant / failing / NULL-returning native callbacks. Each history runs in a worker process natively and under AddressSanitizer: survival is the memory oracle; totality (error shapes for NULL / wrong-kind / misuse), validity and lifetime of returned strings, and a JSON model of host-built values as read back and as seen by scripts are checked inline; the H1 stale-dereference log must stay empty.",
+   text="Seeded search over C-API call histories (5-200 calls over 62 exported functions from a handle table with live values, survivors of freed contexts, NULL and odd primitives), with contexts freed under live handles and pending orders, responses released right after submission, collections injected between and inside calls, re-entrant / failing / NULL-returning native callbacks, callbacks that return one of the handles they were given, a host function called both directly and from a promise handler that runs while the host settles the promise, batch order markers, and self-contained episodes (an internal module with object VALUE exports registered after allocation padding and imported by a script; a console callback fed texts with U+0000 and non-ASCII characters, compared byte for byte). Each history runs in a worker process natively and under AddressSanitizer: survival is the memory oracle; totality (error shapes for NULL / wrong-kind / misuse), validity and lifetime of returned strings, and a JSON model of host-built values as read back and as seen by scripts are checked inline; the H1 stale-dereference log must stay empty.",
    note="Trusted: harness handle discipline (no double free, no use after free by the harness itself), ASan runtime, rustc nightly for the ASan build (absent ASan binary = native only, stated in evidence). The model is dropped wherever aliasing makes expected contents uncertain.",
    technique="deterministic simulation: seeded API call histories with lifetime faults and injected collections, worker processes under ASan as memory oracle"),
  "C06": dict(level="exploration", design="§5 C06",
-   text="Simulated host with a watchdog on the simulated clock (H3 instruction counter): generated programs, 13 unbounded loop/recursion templates on trampolined paths and native-argument sweeps (130 call shapes of String/Array/Number/Math/Date/JSON/RegExp/Object natives x boundary arguments: NaN, +-Infinity, +-2^31, 2^32, +-2^53, +-2^63, fractions, non-ASCII text, lone surrogates) are stepped under seeded step and depth budgets in worker processes; per step at most one VM instruction unless a native re-entered the VM (then a fixed bound), the budget stops the run, the interpreter stays usable, no call panics. Resource faults are enumerated in worker processes: 10 allocation templates x 10 sizes up to 2^53; 30 recursion templates (16 call paths, 14 data-graph walkers: JSON, flat, structuredClone, prototype chains, cyclic arrays, regexp nesting) and 12 source-text nesting templates x 4 depths x 3 native stack sizes under a 4 GiB address-space cap; a dead worker is a violation unless the case belongs to a recorded finding.",
+   text="Simulated host with a watchdog on the simulated clock (H3 instruction counter): generated programs, 13 unbounded loop/recursion templates on trampolined paths and native-argument sweeps (about 330 call shapes incl. catalogue 3: ill-behaved comparators on arrays of 21-100 elements, coercion hooks that write to their own receiver, cyclic prototype chains; 130 call shapes of String/Array/Number/Math/Date/JSON/RegExp/Object natives x boundary arguments: NaN, +-Infinity, +-2^31, 2^32, +-2^53, +-2^63, fractions, non-ASCII text, lone surrogates) are stepped under seeded step and depth budgets in worker processes; per step at most one VM instruction unless a native re-entered the VM (then a fixed bound), the budget stops the run, the interpreter stays usable, no call panics. Resource faults are enumerated in worker processes: 10 allocation templates x 10 sizes up to 2^53; 30 recursion templates (16 call paths, 14 data-graph walkers: JSON, flat, structuredClone, prototype chains, cyclic arrays, regexp nesting) and 12 source-text nesting templates x 4 depths x 3 native stack sizes under a 4 GiB address-space cap; a dead worker is a violation unless the case belongs to a recorded finding.",
    note="Trusted: harness, ulimit, process exit status. Five recorded findings are architectural (native re-entry: unbounded step, native-stack overflow on call paths, on data graphs and on nested program text; unchecked allocation sizes); their cases are listed one by one in known_findings.json; a recursion-template death is attributed to the finding that lists a shallower (or at most one decade deeper on a same-or-bigger stack) case of the same template, because where the stack runs out depends on the build. A worker that hits the 8 s CPU limit inside one step is reported as SLOW, never as a death.",
    technique="deterministic simulation: host watchdog on a simulated clock + enumerated resource faults (stack size, address-space cap, sizes, nesting depths) in worker processes"),
  "C19": dict(level="exploration", design="§5 C19",
-   text="Seeded search over programs (scripts and modules, with/without host-provided imports, host holes with value / error / deferred answers, planted uncaught errors) each run by five drivers with one fixed host schedule: eval, prepare+step, prepare+step with seeded host activity between steps, C API tsrun_run, C API tsrun_step; observable histories (non-Continue results with payloads, console, final value or first line of the error text, exports) must be identical. Console text includes non-ASCII lines (the C host receives pointer + byte length). A synchronous module text is also run as entry program, as host-provided dependency and as InternalModule::source, referred to by the importing program in four ways (named/default import, re-export list, namespace import, export * as) placed between two exports of its own: same exported values, export names and console.",
+   text="Seeded search over programs (scripts and modules, with/without host-provided imports, host holes with value / error / deferred answers, orders issued in batches through a native and awaited later or never, planted uncaught errors; plus the author-written corpus: 2446 snippets of tests/interpreter and 26 programs of examples/ with their module graphs) each run by five drivers under one collection-injection policy with one fixed host schedule: eval, prepare+step, prepare+step with seeded host activity between steps, C API tsrun_run, C API tsrun_step; observable histories (non-Continue results with payloads, console, final value or first line of the error text, exports) must be identical. Console text includes non-ASCII lines (the C host receives pointer + byte length). A synchronous module text is also run as entry program, as host-provided dependency and as InternalModule::source, referred to by the importing program in four ways (named/default import, re-export list, namespace import, export * as) placed between two exports of its own: same exported values, export names and console; a module body that dies of an uncaught error must report the same error (first line of the display text) in all three roles.",
    note="Trusted: harness hosts (Rust and C side implement the same simplest answer policy). The C API has no provider or GC-threshold entry points, so programs avoid clock/randomness. Continue counts are not compared.",
    technique="deterministic simulation: one fixed host schedule replayed through five driver hosts (incl. C API) and three module roles"),
  "C09": dict(level="exploration", design="§5 C09",
@@ -32,32 +32,32 @@ CHECKS = {
    note="Trusted: the reference resolver and closed-form model in the harness. Order among independent ready modules is not constrained (partial order only).",
    technique="deterministic simulation: seeded delivery schedules (reorder, batch, early, duplicate, withhold) vs reference module-graph model"),
  "C08": dict(level="exploration", design="§5 C08",
-   text="Seeded search over two-party protocol histories: orderDsl programs (<=7 orders; await order, kept results, Promise.all/race over host promises, explicit cancels, statements inside async callees with the catch inside the callee, around the awaited call, on the callee's promise awaited later, or as a .catch handler) against a tape-driven simulated host (value / error / plain or order-linked pending promise answers, any settle order and batching, unknown and duplicate ids, idle steps, forced collections). An executable reference model of ledger + promises + combinators runs in lockstep and is compared per Suspended (fresh increasing ids, intact payloads, exactly the issued orders, obligations non-empty) and at Complete (log, nothing unanswered, every cancellation event delivered exactly once). Four recorded findings (Promise.any / allSettled over pending host promises, cancellation lost at Complete) are quarantined from the generator and replayed as witnesses.",
-   note="Trusted: the reference model (about 300 lines) and the harness host. Liveness is bounded: after the host has met every obligation, at most three further fruitless rounds are tolerated.",
+   text="Seeded search over two-party protocol histories: orderDsl programs (<=7 orders; await order, kept results, Promise.all/race over host promises, explicit cancels, batches of orders issued through a native ([..].map(order)) whose markers are awaited later in any order, statements inside async callees with the catch inside the callee, around the awaited call, on the callee's promise awaited later, or as a .catch handler) against a tape-driven simulated host (value / error / plain or order-linked pending promise answers, any settle order and batching, unknown and duplicate ids, idle steps, forced collections). An executable reference model of ledger + promises + combinators runs in lockstep and is compared per Suspended (fresh increasing ids, intact payloads, exactly the issued orders, obligations non-empty: NO Suspended at all with nothing left for the host to do; payloads of all earlier orders, kept by the host, re-read unchanged) and at Complete (log, nothing unanswered, every cancellation event delivered exactly once). Four recorded findings (Promise.any / allSettled over pending host promises, cancellation lost at Complete) are quarantined from the generator and replayed as witnesses.",
+   note="Trusted: the reference model (about 300 lines) and the harness host. A Suspended result with no unanswered order and no unsettled host promise is a violation at once. Duplicate answers are only sent for orders the program was blocked on (which of two answers a not-yet-awaited batch order sees is not specified).",
    technique="deterministic simulation: two-party protocol histories with fault injection vs lockstep reference model"),
  "C12": dict(level="exploration", design="§5 C12",
-   text="Seeded search over multi-instance scenarios: 2-4 interpreters with their own programs (console timers/groups/counters, new Function, modules with 2-6 exports importing host-delivered modules, an optional follow-up program on the same interpreter), hosts, clocks and random seeds, scheduled action by action by the simulator in one thread (incl. late creation, early drop, forced collects), after prior lifetimes, and as one OS thread per instance released one action at a time; every instance's full trace (results, console, traffic, steps, exports and their enumeration order) must equal its solo trace. Plus the same seeds in 2 (quick) / 4 (thorough) fresh processes under ASLR with a shifted heap: trace hashes must agree.",
+   text="Seeded search over multi-instance scenarios: 2-4 interpreters with their own programs (generated or taken from the author-written corpus; per-instance simulated RegExp engines - default / case-folding / literal - with the same patterns in every instance; console timers/groups/counters, new Function, modules with 2-6 exports importing host-delivered modules, an optional follow-up program on the same interpreter), hosts, clocks and random seeds, scheduled action by action by the simulator in one thread (incl. late creation, early drop, forced collects), after prior lifetimes, and as one OS thread per instance released one action at a time; every instance's full trace (results, console, traffic, steps, exports and their enumeration order) must equal its solo trace. Plus the same seeds in 2 (quick) / 4 (thorough) fresh processes under ASLR with a shifted heap: trace hashes must agree.",
    note="Trusted: harness; per-instance collector schedules use thresholds/forced collects only (the injection seam is per thread). A cross-process hash mismatch is reported with the seed index; it cannot be turned into a single-process replay file by construction.",
    technique="deterministic simulation: seeded instance-interleaving scheduler (one thread and turn-based threads) + process-restart comparison"),
  "C11": dict(level="fault_enumeration", design="§5 C11",
-   text="Crash-and-restart histories on one interpreter: victims end by running out, dying of an uncaught (planted) error at arbitrary depth, being abandoned after s steps, or being left suspended; restart = next prepare(). Quick tier samples crash points; the thorough tier enumerates EVERY step index of victims with T<=400 steps (larger ones sampled). Oracle: a fixed battery and a generated observer behave exactly as on a fresh interpreter (outcome, console, traffic with renumbered order ids, exports), call depth 0, H4 quiescence tuple equal.",
+   text="Crash-and-restart histories on one interpreter: victims end by running out, dying of an uncaught (planted) error at arbitrary depth, being abandoned after s steps, or being left suspended (generated victims and author-written corpus snippets); restart = next prepare() / eval() / eval_bytecode(). A slow host delivers answers to the orders of dead runs while the next run waits for its own first order. Quick tier samples crash points; the thorough tier enumerates EVERY step index of victims with T<=400 steps (larger ones sampled). Oracle: a fixed battery and a generated observer behave exactly as on a fresh interpreter (outcome, console, traffic with renumbered order ids, exports), call depth 0, H4 quiescence tuple equal.",
    note="Trusted: harness; victims are generated free of deliberate global effects (block- or module-scoped). Crash-point enumeration is complete per victim only in the thorough tier and only for victims of at most 400 steps; victims themselves are sampled.",
    technique="deterministic simulation: crash-point enumeration (abandon/kill at every step) + restart vs fresh-instance reference"),
  "C14": dict(level="exploration", design="§5 C14",
-   text="Conservation check over seeded histories: the same self-contained program run 6-12 times on one interpreter (completing or failing) with a collection after each, and loops inside one run where the simulated host forces a collection at every suspension and records the live-object count; strict growth over the last four observations is a violation. Two recorded findings (break/continue and generator scope guards) are quarantined from the inside-run generator and replayed as witnesses.",
+   text="Conservation check over seeded histories: the same self-contained program run 6-12 times on one interpreter (completing or failing) with a collection after each, and loops inside one run where the simulated host forces a collection at every suspension and records the live-object count; strict growth over the last four observations is a violation. Programs: generated (block-wrapped, or unwrapped with short and >64-byte top-level declarations that every repetition replaces) and the author-written corpus (across runs and as the body of an inside-run loop). Two recorded findings (break/continue and generator scope guards) are quarantined from the inside-run generator and replayed as witnesses.",
    note="Trusted: harness, gc_stats().live_objects. Lazily filled caches that stabilise are not alarmed. Module-mode programs are excluded (module environments are rooted forever by design).",
    technique="deterministic simulation: repeated-run histories with host-forced collections, conservation oracle"),
  "C02": dict(level="exploration", design="§5 C02",
-   text="Seeded search over (generated program, host tape) x 4-8 collection schedules (thresholds, collections injected at arbitrary allocations through the H2 seam, bursts, host-forced collect() between steps and at suspensions); every perturbed run must reproduce the outcome, console, host traffic and exports of the collection-off run, with an empty stale-dereference log (H1). Sampling, not enumeration.",
+   text="Three strata: (a) generated programs incl. native matrix catalogues 1-3 (callback natives x fresh objects, grouping with fresh keys, several handlers per promise, mutation during iteration), register-only temporaries (multi-cursor loops, swaps, chained assignment), export-default values in entry program and provided dependency, batch orders, host-called resolvers; (b) the author-written corpus (2446 test snippets, 26 example programs with module graphs); (c) sessions: histories of module runs on ONE interpreter in which the host keeps exported values and functions (host-guarded), calls them after later runs, re-runs entry modules, forces collections and allocates. Each (program / session, host tape) x 3-8 collection schedules (thresholds, collections injected at arbitrary allocations through the H2 seam, bursts, host-forced collect() between steps and at suspensions); every perturbed run must reproduce the outcome, console, host traffic and exports of the collection-off run, with an empty stale-dereference log (H1). Sampling, not enumeration.",
    note="Trusted: harness (progGen, simulated host, comparison), hooks H1/H2 (add-only, cfg tsrun_verif). Programs are tsrun-vs-tsrun, so ECMAScript conformance is not assumed.",
    technique="deterministic simulation: seeded GC-schedule injection vs GC-off reference run"),
  "C07": dict(level="exploration", design="§5 C07",
-   text="Seeded search over generated programs with host holes at many syntactic positions x 3-5 host schedules (immediate / error / deferred-promise answers, settle order and batching from a choice tape, idle steps, eval vs step driver, GC schedule); oracle = the token-identical program with a synchronous stub. Sampling, not enumeration.",
+   text="Seeded search over generated programs with host holes at many syntactic positions (incl. orders issued in batches through a native and awaited later, and promises whose resolve function is handed to the host and CALLED by it later) x 3-5 host schedules (immediate / error / deferred-promise answers, settle order and batching from a choice tape, idle steps, eval vs step driver, GC schedule); oracle = the token-identical program with a synchronous stub. Sampling, not enumeration.",
    note="Trusted: harness; the synchronous-stub run as reference (same interpreter, no suspension). Generated programs are sequential in their async structure, so no outcome is legitimately settle-order dependent.",
    technique="deterministic simulation: simulated host with seeded answer schedules vs non-suspending reference"),
  "C13": dict(level="exploration", design="§5 C13",
-   text="Seeded search over operation histories of the public Heap/Guard/Gc API (short dense and long strata, heap drop with survivors, stale-handle clone/drop) checked operation by operation against an executable reachability model; the same histories are the workload for the ASan/Miri memory oracle. Sampling, not enumeration.",
-   note="Trusted: the harness model (reachability graph, collection detection through the H2 counter), rustc, sanitizer runtimes. Histories never borrow through handles the model knows to be stale.",
+   text="Seeded search over operation histories of the public Heap/Guard/Gc API (short dense and long strata, heap drop with survivors, stale-handle clone/drop, guard/unguard with stale handles while their slot is free, guard storms and bursts past the guard-storage pool of 16, many-root guards) checked operation by operation against an executable reachability model; the same histories are the workload for the ASan/Miri memory oracle. Sampling, not enumeration.",
+   note="Trusted: the harness model (reachability graph, collection detection through the H2 counter), rustc, sanitizer runtimes. Histories never borrow through handles the model knows to be stale; guard/unguard with a stale handle whose slot has a NEW tenant is the recorded finding KF-C13-2/2b (witnesses replayed, case skipped by the generator).",
    technique="deterministic simulation: seeded operation histories vs executable reference model, crash = heap drop with survivors"),
 }
 
